@@ -42,9 +42,9 @@ PROPS["C16"] = dict(
     # (5) inherited operations
     dict(name="c16-ops", harness="C16_hex.cpp", entries=["harness_c16_ops"], units=HEXU, unwind=150, checks="none", object_bits=13,
          shards={"quick": [{0: 0, 1: ch, 2: 0, 3: 1} for ch in range(8)],
-                 "thorough": [{0: md, 1: ch, 2: gc, 3: 3} for md in range(4) for gc in (0, 1) for ch in range(4)]},
+                 "thorough": [{0: md, 1: ch, 2: gc, 3: 2} for md in range(4) for gc in (0, 1) for ch in range(6)]},
          timeout={"quick": 400, "thorough": 1200}, mem_gb=4,
-         bounds="two-hex base + ONE inherited operation (symbolic selector, 3 per query in thorough; quick: 1 per query, i.e. fixed by the shard) from {delete_cell 0/1, delete_face shared/bottom/side, swap_cell_indices(0,1), swap_face_indices(1,10)/(0,5), "
+         bounds="two-hex base + ONE inherited operation (symbolic selector, 2 per query in thorough; quick: 1 per query, i.e. fixed by the shard) from {delete_cell 0/1, delete_face shared/bottom/side, swap_cell_indices(0,1), swap_face_indices(1,10)/(0,5), "
                 "delete_edge(0), delete_vertex(0), swap_edge_indices(0,19), swap_vertex_indices(0,11)}; quick: first 8, immediate deletion; thorough: all 12 x 4 deletion modes x with/without collect_garbage. "
                 "Asserted for the surviving entities: face valence 4, cell valence 6, " + _C16_ORACLE),
     # (2) permuted valid halfface lists
@@ -64,6 +64,10 @@ PROPS["C16"] = dict(
                 "add_cell(8 vertices, true); concrete meshes, no history. " + _C16_ORACLE + "; is_boundary(hf/f: symbolic halfface; c enumerated); adjacent_halfface_on_sheet / "
                 "adjacent_halfface_on_surface / neighboring_outside_halfface for EVERY (halfface, halfedge of it) enumerated (these copy containers: a symbolic probe gives no verdict); "
                 "cell_sheet_cells(c,d) for every cell and direction 0..5 with a symbolic target cell; halfface_sheet_halffaces(hf) + common_edge() for every halfface with a symbolic target halfface"),
+    dict(name="c16-sheet", harness="C16_hex.cpp", entries=["harness_c16_base"], units=HEXU, unwind=150, checks="none", object_bits=13, tiers=["thorough"],
+         shards=_c16_base_shards(_HB_SHEET, 40, 5, 10, False), timeout=1200, mem_gb=8,
+         bounds="2x2 sheet: four hexahedra around one interior edge (18 vertices, 33 edges, 20 faces) built with add_cell(8 vertices, true); same oracle parts as c16-base, sharded by "
+                "reference halfface (navigation: 5 per query, halfface sheet circulator: 10 per query); shards without a verdict inside 1200 s are reported NOT-COVERED"),
     # (3) rejected constructions (memory-safety checks on)
     dict(name="c16-reject", harness="C16_hex.cpp", entries=["harness_c16_reject"], units=HEXU, unwind=150, checks="mem", object_bits=13,
          shards=[{0: 0}, {0: 1}, {0: 2}], timeout={"quick": 400, "thorough": 1200}, mem_gb=3,
@@ -76,7 +80,7 @@ PROPS["C16"] = dict(
          bounds="orthogonal_orientation(o1,o2) for all 65536 pairs of 8-bit arguments == cross product of the signed axes (INVALID for invalid / same-axis arguments); opposite_orientation for o < 6"),
   ],
   assumptions=[
-    "meshes: one hexahedron, two hexahedra sharing a face (2x2 sheet not covered: no verdict within the per-query budget); K <= 1 operation after construction; larger blocks, bending / closed sheets, longer histories are outside the bound",
+    "meshes: one hexahedron, two hexahedra sharing a face, (thorough) a flat 2x2 sheet of four hexahedra around one interior edge; K <= 1 operation after construction; larger blocks, bending / closed sheets, longer histories are outside the bound",
     "navigation helpers and sheet circulators are checked for every enumerated centre (they copy / sort containers, symbolic centres give no verdict); compared targets and orientation constants are symbolic",
     "adjacent_halfface_on_sheet/on_surface/neighboring_outside_halfface have no documented contract beyond their names; the oracle is the brute-force reading: the halfface continuing hf across he on the cell across the side face (either side of hf), resp. a boundary halfface of another face around he",
     "passing invalid handles to add_cell is outside the precondition (not exercised)",
